@@ -1419,7 +1419,7 @@ impl Typer {
         for param in params.iter() {
             let name_str = self.hir_table.local_ident_name(param.name);
             let param_ty = match &param.ty {
-                Some(ty) => tast::Ty::from_hir(genv, ty, &current_tparams_env),
+                Some(ty) => annotation_ty(genv, diagnostics, ty, &current_tparams_env),
                 None => self.fresh_ty_var(),
             };
             local_env.insert_var(param.name, param_ty.clone());
@@ -1473,7 +1473,7 @@ impl Typer {
                     let annotated_ty = param
                         .ty
                         .as_ref()
-                        .map(|ty| tast::Ty::from_hir(genv, ty, &current_tparams_env));
+                        .map(|ty| annotation_ty(genv, diagnostics, ty, &current_tparams_env));
 
                     let param_ty = match annotated_ty {
                         Some(ann_ty) => {
@@ -1528,7 +1528,7 @@ impl Typer {
         let current_tparams_env = local_env.current_tparams_env();
         let annotated_ty = annotation
             .as_ref()
-            .map(|ty| tast::Ty::from_hir(genv, ty, &current_tparams_env));
+            .map(|ty| annotation_ty(genv, diagnostics, ty, &current_tparams_env));
 
         let (value_tast, value_ty) = if let Some(ann_ty) = &annotated_ty {
             (
@@ -1614,7 +1614,7 @@ impl Typer {
         let current_tparams_env = local_env.current_tparams_env();
         let annotated_ty = annotation
             .as_ref()
-            .map(|ty| tast::Ty::from_hir(genv, ty, &current_tparams_env));
+            .map(|ty| annotation_ty(genv, diagnostics, ty, &current_tparams_env));
 
         let (value_tast, value_ty) = if let Some(ann_ty) = &annotated_ty {
             (
@@ -2969,6 +2969,22 @@ fn has_visible_trait_impl(genv: &PackageTypeEnv, trait_name: &str, for_ty: &tast
     genv.deps
         .values()
         .any(|env| env.trait_env.trait_impls.contains_key(&key))
+}
+
+/// Type written in a `let` or closure-parameter annotation: converted like the types of
+/// a signature and validated like them (unknown names, wrong number of type arguments,
+/// unknown traits behind `dyn`), so that it cannot reach the later stages unchecked.
+fn annotation_ty(
+    genv: &PackageTypeEnv,
+    diagnostics: &mut Diagnostics,
+    ty: &hir::TypeExpr,
+    tparams_env: &[tast::TastIdent],
+) -> tast::Ty {
+    let ty = tast::Ty::from_hir(genv, ty, tparams_env);
+    let tparam_names: std::collections::HashSet<String> =
+        tparams_env.iter().map(|t| t.0.clone()).collect();
+    super::util::validate_ty(genv, diagnostics, &ty, &tparam_names);
+    ty
 }
 
 fn integer_literal_target(expected: &tast::Ty) -> Option<tast::Ty> {
